@@ -530,3 +530,186 @@ M('c05-wsgi-render-again-unprotected', 'C05', 'R14', A,
 
         resp_status: str = code_to_http_status(resp.status)
 """, also=('C03', 'C04', 'C06'))
+
+# ---- second preserving wave (k2-*): "refactoring + break" - the behaviour-preserving shape the rules now look through
+# (helper extracted, list of pieces, constant tuple, local alias, additive keyword-only parameter) PLUS the original mistake
+M2('c05-k2-close-helper-closes-nothing', 'C05', 'R6', [
+    {'file': 'falcon/asgi/app.py',
+     'old': "                    if hasattr(stream, 'close'):\n                        await stream.close()\n",
+     'new': '                    await _close_response_stream(stream)\n', 'count': 2},
+    {'file': 'falcon/asgi/app.py',
+     'old': 'class App(falcon.app.App):\n',
+     'new': "async def _close_response_stream(stream: Any) -> None:\n    if hasattr(stream, 'close'):\n        pass\n\n\nclass App(falcon.app.App):\n"},
+])
+M2('c05-k2-close-helper-closes-twice', 'C05', 'R6', [
+    {'file': 'falcon/asgi/app.py',
+     'old': "                    if hasattr(stream, 'close'):\n                        await stream.close()\n",
+     'new': '                    await _close_response_stream(stream)\n', 'count': 2},
+    {'file': 'falcon/asgi/app.py',
+     'old': 'class App(falcon.app.App):\n',
+     'new': "async def _close_response_stream(stream: Any) -> None:\n    if hasattr(stream, 'close'):\n        await stream.close()\n        await stream.close()\n\n\nclass App(falcon.app.App):\n"},
+])
+M2('c05-k2-close-helper-suspends-before-closing', 'C05', 'R6', [
+    {'file': 'falcon/asgi/app.py',
+     'old': "                    if hasattr(stream, 'close'):\n                        await stream.close()\n",
+     'new': '                    await _close_response_stream(stream)\n', 'count': 2},
+    {'file': 'falcon/asgi/app.py',
+     'old': 'class App(falcon.app.App):\n',
+     'new': "async def _close_response_stream(stream: Any) -> None:\n    await asyncio.sleep(0)\n    if hasattr(stream, 'close'):\n        await stream.close()\n\n\nclass App(falcon.app.App):\n"},
+])
+M2('c05-k2-close-helper-coroutine-not-awaited', 'C05', 'R6', [
+    {'file': 'falcon/asgi/app.py',
+     'old': "                    if hasattr(stream, 'close'):\n                        await stream.close()\n",
+     'new': '                    _close_response_stream(stream)\n', 'count': 2},
+    {'file': 'falcon/asgi/app.py',
+     'old': 'class App(falcon.app.App):\n',
+     'new': "async def _close_response_stream(stream: Any) -> None:\n    if hasattr(stream, 'close'):\n        await stream.close()\n\n\nclass App(falcon.app.App):\n"},
+])
+M2('c05-k2-close-helper-called-from-else-not-finally', 'C05', 'R6', [
+    {'file': 'falcon/asgi/app.py',
+     'old': "                finally:\n                    # NOTE(vytas): This could be DRYed with the above identical\n                    #   twoliner in a one large block, but OTOH we would be\n                    #   unable to reuse the current try.. except.\n                    if hasattr(stream, 'close'):\n                        await stream.close()\n",
+     'new': '                else:\n                    await _close_response_stream(stream)\n'},
+    {'file': 'falcon/asgi/app.py',
+     'old': "                    if hasattr(stream, 'close'):\n                        await stream.close()\n",
+     'new': '                    await _close_response_stream(stream)\n'},
+    {'file': 'falcon/asgi/app.py',
+     'old': 'class App(falcon.app.App):\n',
+     'new': "async def _close_response_stream(stream: Any) -> None:\n    if hasattr(stream, 'close'):\n        await stream.close()\n\n\nclass App(falcon.app.App):\n"},
+])
+M2('c05-k2-close-getattr-idiom-inverted-test', 'C05', 'R6', [
+    {'file': 'falcon/asgi/app.py',
+     'old': "                    if hasattr(stream, 'close'):\n                        await stream.close()\n",
+     'new': "                    closer = getattr(stream, 'close', None)\n                    if closer is None:\n                        await closer()\n", 'count': 2},
+])
+M2('c05-k2-sse-pieces-no-final-newline', 'C05', 'R7', [
+    {'file': 'falcon/asgi/structures.py',
+     'old': "        if self.comment is not None:\n            block = f': {self.comment}\\n'\n        else:\n            block = ''\n\n        if self.event is not None:\n            block += f'event: {self.event}\\n'\n\n        if self.event_id is not None:\n            # NOTE(kgriffs): f-strings are a tiny bit faster than str().\n            block += f'id: {self.event_id}\\n'\n\n        if self.retry is not None:\n            block += f'retry: {self.retry}\\n'\n\n        if self.data is not None:\n            # NOTE(kgriffs): While this decode() may seem unnecessary, it\n            #   does provide a check to ensure it is valid UTF-8. I'm also\n            #   assuming for the moment that most people will not use this\n            #   attribute, but rather the text and json ones instead. If that\n            #   is true, it makes sense to construct the entire string\n            #   first, then encode it all in one go at the end.\n            block += f'data: {self.data.decode()}\\n'\n        elif self.text is not None:\n            block += f'data: {self.text}\\n'\n        elif self.json is not None:\n            if handler is None:\n                handler = _DEFAULT_JSON_HANDLER\n            serialized = handler.serialize(self.json, MEDIA_JSON)\n            block += 'data: '\n            return block.encode() + serialized + b'\\n\\n'\n\n        if not block:\n            return b': ping\\n\\n'\n\n        return (block + '\\n').encode()\n",
+     'new': "        parts: list[str] = []\n\n        if self.comment is not None:\n            parts.append(f': {self.comment}\\n')\n\n        if self.event is not None:\n            parts.append(f'event: {self.event}\\n')\n\n        if self.event_id is not None:\n            # NOTE(kgriffs): f-strings are a tiny bit faster than str().\n            parts.append(f'id: {self.event_id}\\n')\n\n        if self.retry is not None:\n            parts.append(f'retry: {self.retry}\\n')\n\n        if self.data is not None:\n            # NOTE(kgriffs): While this decode() may seem unnecessary, it\n            #   does provide a check to ensure it is valid UTF-8. I'm also\n            #   assuming for the moment that most people will not use this\n            #   attribute, but rather the text and json ones instead. If that\n            #   is true, it makes sense to construct the entire string\n            #   first, then encode it all in one go at the end.\n            parts.append(f'data: {self.data.decode()}\\n')\n        elif self.text is not None:\n            parts.append(f'data: {self.text}\\n')\n        elif self.json is not None:\n            if handler is None:\n                handler = _DEFAULT_JSON_HANDLER\n            serialized = handler.serialize(self.json, MEDIA_JSON)\n            parts.append('data: ')\n            return ''.join(parts).encode() + serialized + b'\\n\\n'\n\n        if not parts:\n            return b': ping\\n\\n'\n\n        return ''.join(parts).encode()\n"},
+])
+M2('c05-k2-sse-pieces-retry-without-newline', 'C05', 'R7', [
+    {'file': 'falcon/asgi/structures.py',
+     'old': "        if self.comment is not None:\n            block = f': {self.comment}\\n'\n        else:\n            block = ''\n\n        if self.event is not None:\n            block += f'event: {self.event}\\n'\n\n        if self.event_id is not None:\n            # NOTE(kgriffs): f-strings are a tiny bit faster than str().\n            block += f'id: {self.event_id}\\n'\n\n        if self.retry is not None:\n            block += f'retry: {self.retry}\\n'\n\n        if self.data is not None:\n            # NOTE(kgriffs): While this decode() may seem unnecessary, it\n            #   does provide a check to ensure it is valid UTF-8. I'm also\n            #   assuming for the moment that most people will not use this\n            #   attribute, but rather the text and json ones instead. If that\n            #   is true, it makes sense to construct the entire string\n            #   first, then encode it all in one go at the end.\n            block += f'data: {self.data.decode()}\\n'\n        elif self.text is not None:\n            block += f'data: {self.text}\\n'\n        elif self.json is not None:\n            if handler is None:\n                handler = _DEFAULT_JSON_HANDLER\n            serialized = handler.serialize(self.json, MEDIA_JSON)\n            block += 'data: '\n            return block.encode() + serialized + b'\\n\\n'\n\n        if not block:\n            return b': ping\\n\\n'\n\n        return (block + '\\n').encode()\n",
+     'new': "        parts: list[str] = []\n\n        if self.comment is not None:\n            parts.append(f': {self.comment}\\n')\n\n        if self.event is not None:\n            parts.append(f'event: {self.event}\\n')\n\n        if self.event_id is not None:\n            # NOTE(kgriffs): f-strings are a tiny bit faster than str().\n            parts.append(f'id: {self.event_id}\\n')\n\n        if self.retry is not None:\n            parts.append(f'retry: {self.retry}')\n\n        if self.data is not None:\n            # NOTE(kgriffs): While this decode() may seem unnecessary, it\n            #   does provide a check to ensure it is valid UTF-8. I'm also\n            #   assuming for the moment that most people will not use this\n            #   attribute, but rather the text and json ones instead. If that\n            #   is true, it makes sense to construct the entire string\n            #   first, then encode it all in one go at the end.\n            parts.append(f'data: {self.data.decode()}\\n')\n        elif self.text is not None:\n            parts.append(f'data: {self.text}\\n')\n        elif self.json is not None:\n            if handler is None:\n                handler = _DEFAULT_JSON_HANDLER\n            serialized = handler.serialize(self.json, MEDIA_JSON)\n            parts.append('data: ')\n            return ''.join(parts).encode() + serialized + b'\\n\\n'\n\n        if not parts:\n            return b': ping\\n\\n'\n\n        parts.append('\\n')\n        return ''.join(parts).encode()\n"},
+])
+M2('c05-k2-sse-pieces-text-by-truthiness', 'C05', 'R7', [
+    {'file': 'falcon/asgi/structures.py',
+     'old': "        if self.comment is not None:\n            block = f': {self.comment}\\n'\n        else:\n            block = ''\n\n        if self.event is not None:\n            block += f'event: {self.event}\\n'\n\n        if self.event_id is not None:\n            # NOTE(kgriffs): f-strings are a tiny bit faster than str().\n            block += f'id: {self.event_id}\\n'\n\n        if self.retry is not None:\n            block += f'retry: {self.retry}\\n'\n\n        if self.data is not None:\n            # NOTE(kgriffs): While this decode() may seem unnecessary, it\n            #   does provide a check to ensure it is valid UTF-8. I'm also\n            #   assuming for the moment that most people will not use this\n            #   attribute, but rather the text and json ones instead. If that\n            #   is true, it makes sense to construct the entire string\n            #   first, then encode it all in one go at the end.\n            block += f'data: {self.data.decode()}\\n'\n        elif self.text is not None:\n            block += f'data: {self.text}\\n'\n        elif self.json is not None:\n            if handler is None:\n                handler = _DEFAULT_JSON_HANDLER\n            serialized = handler.serialize(self.json, MEDIA_JSON)\n            block += 'data: '\n            return block.encode() + serialized + b'\\n\\n'\n\n        if not block:\n            return b': ping\\n\\n'\n\n        return (block + '\\n').encode()\n",
+     'new': "        parts: list[str] = []\n\n        if self.comment is not None:\n            parts.append(f': {self.comment}\\n')\n\n        if self.event is not None:\n            parts.append(f'event: {self.event}\\n')\n\n        if self.event_id is not None:\n            # NOTE(kgriffs): f-strings are a tiny bit faster than str().\n            parts.append(f'id: {self.event_id}\\n')\n\n        if self.retry is not None:\n            parts.append(f'retry: {self.retry}\\n')\n\n        if self.data is not None:\n            # NOTE(kgriffs): While this decode() may seem unnecessary, it\n            #   does provide a check to ensure it is valid UTF-8. I'm also\n            #   assuming for the moment that most people will not use this\n            #   attribute, but rather the text and json ones instead. If that\n            #   is true, it makes sense to construct the entire string\n            #   first, then encode it all in one go at the end.\n            parts.append(f'data: {self.data.decode()}\\n')\n        elif self.text:\n            parts.append(f'data: {self.text}\\n')\n        elif self.json is not None:\n            if handler is None:\n                handler = _DEFAULT_JSON_HANDLER\n            serialized = handler.serialize(self.json, MEDIA_JSON)\n            parts.append('data: ')\n            return ''.join(parts).encode() + serialized + b'\\n\\n'\n\n        if not parts:\n            return b': ping\\n\\n'\n\n        parts.append('\\n')\n        return ''.join(parts).encode()\n"},
+])
+M2('c05-k2-sse-pieces-text-arm-not-exclusive', 'C05', 'R7', [
+    {'file': 'falcon/asgi/structures.py',
+     'old': "        if self.comment is not None:\n            block = f': {self.comment}\\n'\n        else:\n            block = ''\n\n        if self.event is not None:\n            block += f'event: {self.event}\\n'\n\n        if self.event_id is not None:\n            # NOTE(kgriffs): f-strings are a tiny bit faster than str().\n            block += f'id: {self.event_id}\\n'\n\n        if self.retry is not None:\n            block += f'retry: {self.retry}\\n'\n\n        if self.data is not None:\n            # NOTE(kgriffs): While this decode() may seem unnecessary, it\n            #   does provide a check to ensure it is valid UTF-8. I'm also\n            #   assuming for the moment that most people will not use this\n            #   attribute, but rather the text and json ones instead. If that\n            #   is true, it makes sense to construct the entire string\n            #   first, then encode it all in one go at the end.\n            block += f'data: {self.data.decode()}\\n'\n        elif self.text is not None:\n            block += f'data: {self.text}\\n'\n        elif self.json is not None:\n            if handler is None:\n                handler = _DEFAULT_JSON_HANDLER\n            serialized = handler.serialize(self.json, MEDIA_JSON)\n            block += 'data: '\n            return block.encode() + serialized + b'\\n\\n'\n\n        if not block:\n            return b': ping\\n\\n'\n\n        return (block + '\\n').encode()\n",
+     'new': "        parts: list[str] = []\n\n        if self.comment is not None:\n            parts.append(f': {self.comment}\\n')\n\n        if self.event is not None:\n            parts.append(f'event: {self.event}\\n')\n\n        if self.event_id is not None:\n            # NOTE(kgriffs): f-strings are a tiny bit faster than str().\n            parts.append(f'id: {self.event_id}\\n')\n\n        if self.retry is not None:\n            parts.append(f'retry: {self.retry}\\n')\n\n        if self.data is not None:\n            # NOTE(kgriffs): While this decode() may seem unnecessary, it\n            #   does provide a check to ensure it is valid UTF-8. I'm also\n            #   assuming for the moment that most people will not use this\n            #   attribute, but rather the text and json ones instead. If that\n            #   is true, it makes sense to construct the entire string\n            #   first, then encode it all in one go at the end.\n            parts.append(f'data: {self.data.decode()}\\n')\n        if self.text is not None:\n            parts.append(f'data: {self.text}\\n')\n        elif self.json is not None:\n            if handler is None:\n                handler = _DEFAULT_JSON_HANDLER\n            serialized = handler.serialize(self.json, MEDIA_JSON)\n            parts.append('data: ')\n            return ''.join(parts).encode() + serialized + b'\\n\\n'\n\n        if not parts:\n            return b': ping\\n\\n'\n\n        parts.append('\\n')\n        return ''.join(parts).encode()\n"},
+])
+M2('c05-k2-sse-pieces-ping-single-newline', 'C05', 'R7', [
+    {'file': 'falcon/asgi/structures.py',
+     'old': "        if self.comment is not None:\n            block = f': {self.comment}\\n'\n        else:\n            block = ''\n\n        if self.event is not None:\n            block += f'event: {self.event}\\n'\n\n        if self.event_id is not None:\n            # NOTE(kgriffs): f-strings are a tiny bit faster than str().\n            block += f'id: {self.event_id}\\n'\n\n        if self.retry is not None:\n            block += f'retry: {self.retry}\\n'\n\n        if self.data is not None:\n            # NOTE(kgriffs): While this decode() may seem unnecessary, it\n            #   does provide a check to ensure it is valid UTF-8. I'm also\n            #   assuming for the moment that most people will not use this\n            #   attribute, but rather the text and json ones instead. If that\n            #   is true, it makes sense to construct the entire string\n            #   first, then encode it all in one go at the end.\n            block += f'data: {self.data.decode()}\\n'\n        elif self.text is not None:\n            block += f'data: {self.text}\\n'\n        elif self.json is not None:\n            if handler is None:\n                handler = _DEFAULT_JSON_HANDLER\n            serialized = handler.serialize(self.json, MEDIA_JSON)\n            block += 'data: '\n            return block.encode() + serialized + b'\\n\\n'\n\n        if not block:\n            return b': ping\\n\\n'\n\n        return (block + '\\n').encode()\n",
+     'new': "        parts: list[str] = []\n\n        if self.comment is not None:\n            parts.append(f': {self.comment}\\n')\n\n        if self.event is not None:\n            parts.append(f'event: {self.event}\\n')\n\n        if self.event_id is not None:\n            # NOTE(kgriffs): f-strings are a tiny bit faster than str().\n            parts.append(f'id: {self.event_id}\\n')\n\n        if self.retry is not None:\n            parts.append(f'retry: {self.retry}\\n')\n\n        if self.data is not None:\n            # NOTE(kgriffs): While this decode() may seem unnecessary, it\n            #   does provide a check to ensure it is valid UTF-8. I'm also\n            #   assuming for the moment that most people will not use this\n            #   attribute, but rather the text and json ones instead. If that\n            #   is true, it makes sense to construct the entire string\n            #   first, then encode it all in one go at the end.\n            parts.append(f'data: {self.data.decode()}\\n')\n        elif self.text is not None:\n            parts.append(f'data: {self.text}\\n')\n        elif self.json is not None:\n            if handler is None:\n                handler = _DEFAULT_JSON_HANDLER\n            serialized = handler.serialize(self.json, MEDIA_JSON)\n            parts.append('data: ')\n            return ''.join(parts).encode() + serialized + b'\\n\\n'\n\n        if not parts:\n            return b': ping\\n'\n\n        parts.append('\\n')\n        return ''.join(parts).encode()\n"},
+])
+M2('c05-k2-append-header-delimiter-value-not-stringified', 'C05', 'R12', [
+    {'file': 'falcon/response.py',
+     'old': '    def append_header(self, name: str, value: str) -> None:\n',
+     'new': "    def append_header(self, name: str, value: str, *, delimiter: str = ', ') -> None:\n"},
+    {'file': 'falcon/response.py',
+     'old': "                value = self._headers[name] + ', ' + value\n",
+     'new': '                value = self._headers[name] + delimiter + value\n'},
+    {'file': 'falcon/response.py',
+     'old': '        # to US-ASCII.\n        value = str(value)\n',
+     'new': '        # to US-ASCII.\n', 'count': 2, 'occurrence': 1},
+], also=('C15',))
+M2('c05-k2-append-header-delimiter-passed-by-a-caller', 'C05', 'R12', [
+    {'file': 'falcon/response.py',
+     'old': '    def append_header(self, name: str, value: str) -> None:\n',
+     'new': "    def append_header(self, name: str, value: str, *, delimiter: str = ', ') -> None:\n"},
+    {'file': 'falcon/response.py',
+     'old': "                value = self._headers[name] + ', ' + value\n",
+     'new': '                value = self._headers[name] + delimiter + value\n'},
+    {'file': 'falcon/app_helpers.py',
+     'old': "    resp.append_header('Vary', 'Accept')\n",
+     'new': "    resp.append_header('Vary', 'Accept', delimiter=req.get_header('X-Delimiter'))\n"},
+], also=('C04', 'C15'))
+M2('c05-k2-asgi-headers-alias-store-conditional', 'C05', 'R5', [
+    {'file': 'falcon/asgi/app.py',
+     'old': "            resp._headers['content-length'] = str(len(data))\n\n            await send(",
+     'new': "            hdrs = resp._headers\n            if 'content-length' not in hdrs:\n                hdrs['content-length'] = str(len(data))\n\n            await send("},
+])
+M2('c05-k2-asgi-size-local-of-the-text', 'C05', 'R5', [
+    {'file': 'falcon/asgi/app.py',
+     'old': "            resp._headers['content-length'] = str(len(data))\n\n            await send(",
+     'new': "            size = len(resp.text or '')\n            resp._headers['content-length'] = str(size)\n\n            await send("},
+])
+M2('c05-k2-asgi-body-alias-rebound-before-send', 'C05', 'R5', [
+    {'file': 'falcon/asgi/app.py',
+     'old': "            resp._headers['content-length'] = str(len(data))\n\n            await send(",
+     'new': "            payload = data\n            resp._headers['content-length'] = str(len(payload))\n            payload = payload.strip()\n\n            await send("},
+    {'file': 'falcon/asgi/app.py',
+     'old': "                    'type': 'http.response.body',\n                    'body': data,",
+     'new': "                    'type': 'http.response.body',\n                    'body': payload,"},
+], also=('C06',))
+M2('c05-k2-wsgi-headers-alias-store-conditional', 'C05', 'R5', [
+    {'file': 'falcon/app.py',
+     'old': "            if length is not None:\n                resp._headers['content-length'] = str(length)\n\n        headers",
+     'new': "            hdrs = resp._headers\n            if length is not None and 'content-length' not in hdrs:\n                hdrs['content-length'] = str(length)\n\n        headers"},
+])
+M2('c05-k2-get-body-size-local-of-another-object', 'C05', 'R5', [
+    {'file': 'falcon/app.py',
+     'old': '        if data is not None:\n            return [data], len(data)\n',
+     'new': "        if data is not None:\n            size = len(resp.text or b'')\n            return [data], size\n"},
+])
+M2('c05-k2-wsgi-status-through-alias-of-str', 'C05', 'R2', [
+    {'file': 'falcon/app.py',
+     'old': '        resp_status: str = code_to_http_status(resp.status)\n',
+     'new': '        normalise = str\n        resp_status: str = normalise(resp.status)\n'},
+], also=('C06',))
+M2('c05-k2-body-event-helper-final-inside-the-loop', 'C05', 'R1', [
+    {'file': 'falcon/asgi/app.py',
+     'old': "                        await send(\n                            {\n                                'type': EventType.HTTP_RESPONSE_BODY,\n                                'body': data,\n                                'more_body': True,\n                            }\n                        )\n",
+     'new': '                        await send(_body_event(data))\n'},
+    {'file': 'falcon/asgi/app.py',
+     'old': 'class App(falcon.app.App):\n',
+     'new': "def _body_event(data, more=False):\n    return {'type': 'http.response.body', 'body': data, 'more_body': more}\n\n\nclass App(falcon.app.App):\n"},
+])
+M2('c05-k2-closeable-next-closes-through-a-local', 'C05', 'R6', [
+    {'file': 'falcon/app_helpers.py',
+     'old': "        if data == b'':\n            raise StopIteration\n        else:\n            return data\n",
+     'new': "        if data == b'':\n            stream = self._stream\n            stream.close()\n            raise StopIteration\n        else:\n            return data\n"},
+])
+M2('c05-k2-render-body-media-local-tested-first', 'C05', 'R3', [
+    {'file': 'falcon/response.py',
+     'old': '            data = self._data\n\n            if data is None and self._media is not None:\n',
+     'new': '            data = self._data\n            media = self._media\n\n            if media is not None:\n'},
+], also=('C12',))
+M2('c05-k2-typeless-local-bound-to-the-bodiless-set', 'C05', 'R4', [
+    {'file': 'falcon/app.py',
+     'old': '            if resp_status in _TYPELESS_STATUS_CODES:\n                default_media_type = None\n',
+     'new': '            typeless = _BODILESS_STATUS_CODES\n            if resp_status in typeless:\n                default_media_type = None\n'},
+], also=('C06',))
+M2('c05-k2-content-type-key-constant-misspelt', 'C05', 'R4', [
+    {'file': 'falcon/response.py',
+     'old': "            headers['content-type'] = media_type\n",
+     'new': '            headers[_CT] = media_type\n'},
+    {'file': 'falcon/response.py',
+     'old': 'class Response:\n',
+     'new': "_CT = 'content_type'\n\n\nclass Response:\n"},
+])
+M2('c05-k2-status-line-local-renders-raw-argument', 'C05', 'R7', [
+    {'file': 'falcon/util/misc.py',
+     'old': "        return '{} {}'.format(code, _DEFAULT_HTTP_REASON)\n",
+     'new': "        line = '{} {}'.format(status, _DEFAULT_HTTP_REASON)\n        return line\n"},
+])
+M('c05-k2-send-alias-eof-twice', 'C05', 'R1', G,
+  "\n        await send(_EVT_RESP_EOF)\n", "\n        emit = send\n        await emit(_EVT_RESP_EOF)\n        await emit(_EVT_RESP_EOF)\n")
+M('c05-k2-start-response-alias-skipped-for-empty-body', 'C05', 'R2', A,
+  "        start_response(resp_status, headers)\n        return body\n",
+  "        begin = start_response\n        if body:\n            begin(resp_status, headers)\n        return body\n", also=('C06',))
+M2('c05-k2-returned-body-alias-taken-before-the-head-branch', 'C05', 'R4', [
+    {'file': A, 'old': "        if req.method == 'HEAD' or resp_status in _BODILESS_STATUS_CODES:\n            body = []\n",
+     'new': "        result = body\n        if req.method == 'HEAD' or resp_status in _BODILESS_STATUS_CODES:\n            body = []\n"},
+    {'file': A, 'old': "        start_response(resp_status, headers)\n        return body\n", 'new': "        start_response(resp_status, headers)\n        return result\n"}],
+   also=('C06',))
+M2('c05-k2-sse-emitter-check-helper-only-warns', 'C05', 'R10', [
+    {'file': G, 'old': _REJECT, 'new': "            _require_async_iterable(sse_emitter)\n"},
+    {'file': G, 'old': "class App(falcon.app.App):\n",
+     'new': "def _require_async_iterable(sse_emitter):\n    if isasyncgenfunction(sse_emitter):\n        falcon._logger.warning('Response.sse must be an async iterable')\n\n\nclass App(falcon.app.App):\n"}])
+M('c05-k2-sse-ctor-type-test-local-also-tests-the-value', 'C05', 'R13', SSEV, _SSE_RETRY,
+  "        retry_ok = retry is None or (isinstance(retry, int) and retry > 0)\n        if not retry_ok:\n            raise TypeError('retry must be an int')\n")
